@@ -81,6 +81,7 @@ class Gen:
             # registry); drawn from the side generator so that the rest of the script is unchanged
             if ri.random() < 0.25:
                 line += " unreg=1"
+                self.unreg = getattr(self, "unreg", set()) | {s}
             self.emit(line)
         ng = r.choice([1, 2, 2, 3])
         for g in range(ng):
@@ -171,7 +172,12 @@ class Gen:
                 k = r.randint(1, self.nsinks)
                 self.loggers.setdefault(gg, [])
                 return "CL %d %d %s" % (a, gg, ",".join(map(str, sorted(r.sample(range(self.nsinks), k)))))
-            return "DS %d" % r.randrange(self.nsinks)
+            ds = r.randrange(self.nsinks)
+            if ds in getattr(self, "unreg", set()):
+                # an unregistered (make_shared) sink dies the moment its last owner goes, not at the SinkManager's next sweep:
+                # the model's reaping order is that of registered sinks, so the user handle of such a sink is not dropped
+                return "Q"
+            return "DS %d" % ds
         if w < 0.96 and f in ("levels", "mixed"):
             if r.random() < 0.5:
                 return "SL %d %d" % (g, r.choice([0, 3, 4, 6, 8]))
@@ -545,6 +551,7 @@ def oracles(lines):
     still_blocked = []      # (actor, id, passes) — retries that failed although the backend had found every queue empty
     flush_wait = {}     # actor -> dict(snapshot of ids that must be out, sinks)
     has_faults = any(s["wthrow"] for s in rec["sinks"].values())
+    has_read_faults = any(w and w[0] in ("DT", "NA", "LU") for (w, _r, _e) in rec["ops"])   # aborted polls (fault layer) process nothing by design
     has_flush_faults = any(s["fthrow"] for s in rec["sinks"].values())
     has_pat = any(s.get("pat") == "bad" for s in rec["sinks"].values())
     dyn_cfg_changes = False
@@ -892,7 +899,7 @@ def oracles(lines):
                              "every context with a pending statement had one that was readable in this pass")))
 
     def f34_poll(k_op, now0, fe):
-        if has_faults or dyn_cfg_changes or not f34_wait:
+        if has_faults or has_flush_faults or has_pat or has_read_faults or dyn_cfg_changes or not f34_wait:
             del f34_streak[:]
             return
         plain = [e for e in fe if not e.startswith("[@")]
